@@ -8,8 +8,13 @@ CONSTANTS
   MaxAnswers = 2
   MaxCalls = 1
   CarryLayers = {"http", "json", "signed"}
+  X509Chains = {"x509"}
+  KeyOptions = {"der", "pem", "bothSame", "bothDifferent"}
+  ReplaySources = {}
 INIT Init
 NEXT Next
 VIEW ExportView
-INVARIANTS ExportCase ExportEntryCases
+ACTION_CONSTRAINT CaseBound
+INVARIANTS TypeOK OnlyVerifiedSTH OnlyVerifiedSCT ExportCase ExportEntryCases
+PROPERTIES OnlyFrom200 ErrorsCarryResponse NoPartialResults
 CHECK_DEADLOCK FALSE
